@@ -4,7 +4,7 @@ use std::{
     fs::{File, OpenOptions as FileOpenOptions},
     io::Write,
     path::Path,
-    sync::{Arc, Mutex, RwLock},
+    sync::Arc,
 };
 
 use fs4::FileExt;
@@ -12,7 +12,13 @@ use memmap2::Mmap;
 use page_size::get as get_page_size;
 
 use crate::{
-    bucket::BucketMeta, errors::Result, freelist::Freelist, meta::Meta, page::Page, tx::Tx,
+    bucket::BucketMeta,
+    errors::Result,
+    freelist::Freelist,
+    meta::Meta,
+    page::Page,
+    sync::{Mutex, RwLock},
+    tx::Tx,
 };
 
 const MAGIC_VALUE: u32 = 0x00AB_CDEF;
